@@ -256,43 +256,62 @@ def check_destroy(rep, db, f, inst, vals):
         vals["A2"] = argvals(stores[0][1])[0][1]
         locks = [i for i, e in enumerate(evs) if e.kind == "CALL" and q.short(e.a) in q.EXCLUSIVE_GUARDS and any(is_global(a, "::sandbox_list_lock") for a in e.b)]
         unl = [i for i, e in enumerate(evs) if e.kind == "UNLOCK"]
-        if len(be) != 1 or len(er) != 1 or not fi:
+        if len(be) == 1 and len(er) == 1 and not fi:
+            # hand-written search (iterator loop, possibly in a helper): the iterator erased designates an element of the live list that
+            # the loop compared equal to this sandbox; not finding it aborts (those paths do not survive)
+            ea_ = argvals(evs[er[0]])
+            pos = q.iterator_position(p, ea_[0]) if len(ea_) == 1 else None
+            conds_ = q.conds_before(p, er[0])
+            unrd = lambda t: t[1] if isinstance(t, tuple) and t[:1] == ("rd",) else t
+            eq = pos is not None and pos[0] == "elem" and any(c[0] == "cmp" and c[1] == "==" and {unrd(c[2]), unrd(c[3])} == {("this",), pos[1]} for c in conds_)
+            rng = [i for i, e in enumerate(evs) if e.kind == "RANGE" and is_global(e.a, "::sandbox_list")]
+            locks_ = [i for i, e in enumerate(evs) if e.kind == "CALL" and q.short(e.a) in q.EXCLUSIVE_GUARDS and any(is_global(a, "::sandbox_list_lock") for a in e.b)]
+            unl_ = [i for i, e in enumerate(evs) if e.kind == "UNLOCK"]
+            if eq and rng and locks_ and i0 < locks_[0] < rng[0] < er[0] < be[0] and any(u > er[0] for u in unl_) and not any(locks_[0] < u < er[0] for u in unl_):
+                manual_destroy = True
+            else:
+                rep.violation("R-C14-registry", site(f), "the removal does not erase, inside the unique guard and before the backend is destroyed, the entry that was compared equal to this sandbox", evs[er[0]].loc, inst)
+                return
+        elif len(be) != 1 or len(er) != 1 or not fi:
             rep.violation("R-C14-registry", site(f), "expected one search, one erase and one backend destroy", f["loc"], inst)
             return
-        fa = argvals(evs[fi[0]])
-        fr = (evs[fi[0]].extra or {}).get("ret")
-        same = lambda x: x == fr or (isinstance(x, tuple) and x[:1] in (("var",), ("tmp",)) and p.state.mem.get(("copyof", x)) == fr)
-        exist = any(e.kind == "ASSUME" and e.extra.get("abort_check") and q.mentions(e.a, same) for e in evs[fi[0]:er[0]])
-        if len(fa) < 3 or fa[2] != ("this",) or not exist:
-            rep.violation("R-C14-registry", site(f), "removal does not search for this sandbox and abort when it is absent", f["loc"], inst)
-            return
-        ea = argvals(evs[er[0]])
-        rm = [(e.extra or {}).get("ret") for e in evs[:er[0]] if e.kind == "CALL" and q.short(e.a) == "remove" and len(argvals(e)) >= 3 and argvals(e)[2] == ("this",)]
-        def resolve(x):
-            # follow iterator copies and the iterator -> const_iterator converting constructor
-            for _ in range(6):
-                if isinstance(x, tuple) and x[:1] in (("var",), ("tmp",)):
-                    c_ = p.state.mem.get(("copyof", x))
-                    if c_ is not None:
-                        x = c_
-                        continue
-                    conv = next((e for e in evs if e.kind == "CALL" and (e.extra or {}).get("ret") == x and q.short(e.a) in ("__normal_iterator", "__wrap_iter") and len(argvals(e)) == 1), None)
-                    if conv is not None:
-                        x = argvals(conv)[0]
-                        continue
-                break
-            return x
-        single = len(ea) == 1 and resolve(ea[0]) == fr
-        erase_remove = len(ea) == 2 and any(resolve(ea[0]) == r_ for r_ in rm)
-        if not (single or erase_remove):
-            rep.violation("R-C14-registry", site(f), "the removal erases more than the entry found for this sandbox (erase(%s)): other live sandboxes would leave the registry" % ", ".join(fmt(x)[:50] for x in ea), evs[er[0]].loc, inst)
-            return
-        if not (er[0] < be[0]) or not locks or not (locks[0] < fi[0] < er[0]) or not any(u > er[0] for u in unl) or any(locks[0] < u < er[0] for u in unl):
-            rep.violation("R-C14-registry", site(f), "the sandbox is not removed from the live list inside the unique guard before the backend is destroyed", f["loc"], inst)
-            return
-        if not (i0 < locks[0]):
-            rep.violation("R-C14-writers", site(f), "list removal precedes the status transition", f["loc"], inst)
-            return
+        else:
+            manual_destroy = False
+        if not manual_destroy:
+            fa = argvals(evs[fi[0]])
+            fr = (evs[fi[0]].extra or {}).get("ret")
+            same = lambda x: x == fr or (isinstance(x, tuple) and x[:1] in (("var",), ("tmp",)) and p.state.mem.get(("copyof", x)) == fr)
+            exist = any(e.kind == "ASSUME" and e.extra.get("abort_check") and q.mentions(e.a, same) for e in evs[fi[0]:er[0]])
+            if len(fa) < 3 or fa[2] != ("this",) or not exist:
+                rep.violation("R-C14-registry", site(f), "removal does not search for this sandbox and abort when it is absent", f["loc"], inst)
+                return
+            ea = argvals(evs[er[0]])
+            rm = [(e.extra or {}).get("ret") for e in evs[:er[0]] if e.kind == "CALL" and q.short(e.a) == "remove" and len(argvals(e)) >= 3 and argvals(e)[2] == ("this",)]
+            def resolve(x):
+                # follow iterator copies and the iterator -> const_iterator converting constructor
+                for _ in range(6):
+                    if isinstance(x, tuple) and x[:1] in (("var",), ("tmp",)):
+                        c_ = p.state.mem.get(("copyof", x))
+                        if c_ is not None:
+                            x = c_
+                            continue
+                        conv = next((e for e in evs if e.kind == "CALL" and (e.extra or {}).get("ret") == x and q.short(e.a) in ("__normal_iterator", "__wrap_iter") and len(argvals(e)) == 1), None)
+                        if conv is not None:
+                            x = argvals(conv)[0]
+                            continue
+                    break
+                return x
+            single = len(ea) == 1 and resolve(ea[0]) == fr
+            erase_remove = len(ea) == 2 and any(resolve(ea[0]) == r_ for r_ in rm)
+            if not (single or erase_remove):
+                rep.violation("R-C14-registry", site(f), "the removal erases more than the entry found for this sandbox (erase(%s)): other live sandboxes would leave the registry" % ", ".join(fmt(x)[:50] for x in ea), evs[er[0]].loc, inst)
+                return
+            if not (er[0] < be[0]) or not locks or not (locks[0] < fi[0] < er[0]) or not any(u > er[0] for u in unl) or any(locks[0] < u < er[0] for u in unl):
+                rep.violation("R-C14-registry", site(f), "the sandbox is not removed from the live list inside the unique guard before the backend is destroyed", f["loc"], inst)
+                return
+            if not (i0 < locks[0]):
+                rep.violation("R-C14-writers", site(f), "list removal precedes the status transition", f["loc"], inst)
+                return
         # R-C14-fresh
         clears = {fmt(e.c) for e in evs if e.kind == "CALL" and q.short(e.a) == "clear" and e.c is not None}
         rec = db.rec_by_id.get(f.get("rid")) or {}
